@@ -1151,26 +1151,33 @@ func (o *ovsdbClient) monitor(ctx context.Context, cookie MonitorCookie, reconne
 		return err
 	}
 
-	// populate any deferred updates
+	// populate any deferred updates; the list is taken over first: whatever
+	// happens, none of them may be replayed a second time by the next set-up
 	db.deferUpdates = false
-	for _, update := range db.deferredUpdates {
+	deferred := db.deferredUpdates
+	db.deferredUpdates = make([]*bufferedUpdate, 0)
+	for _, update := range deferred {
 		if update.updates != nil {
-			if err = db.cache.Populate(*update.updates); err != nil {
-				return err
-			}
+			err = db.cache.Populate(*update.updates)
 		}
-
-		if update.updates2 != nil {
-			if err = db.cache.Populate2(*update.updates2); err != nil {
-				return err
-			}
+		if err == nil && update.updates2 != nil {
+			err = db.cache.Populate2(*update.updates2)
+		}
+		if err != nil {
+			// an update that cannot be applied gets the treatment it would have
+			// got without deferral: the error handler rebuilds the cache
+			go func(err error, stopCh <-chan struct{}) {
+				select {
+				case o.errorCh <- err:
+				case <-stopCh:
+				}
+			}(err, o.stopCh)
+			return err
 		}
 		if len(update.lastTxnID) > 0 {
 			db.monitors[cookie.ID].LastTransactionID = update.lastTxnID
 		}
 	}
-	// clear deferred updates for next time
-	db.deferredUpdates = make([]*bufferedUpdate, 0)
 
 	return err
 }
